@@ -1234,7 +1234,15 @@ def odf(doc, images=None, opts=None) -> bytes:
     if not toks:
         raise NotImplementedError("empty formula")
     mis = "".join(f"<mi>{t}</mi>" for t in toks)
-    content = (f'{_XML}<math xmlns="{NS_MATHML}" display="block"><semantics><mrow>{mis}</mrow>'
-               f'<annotation encoding="StarMath 5.0">{" ".join(toks)}</annotation></semantics></math>')
+    # optional (defaults leave the output unchanged): opts["formula_nesting"] = n wraps the identifiers in n further <mrow>
+    # levels (presentation MathML 3, 3.3.1: nested <mrow>s group, they do not change the rendering);
+    # opts["formula_annotation"] = False leaves the StarMath annotation out (a reader has to render the MathML itself)
+    nest = c.opts.get("formula_nesting", 0) or 0
+    if isinstance(nest, bool) or not isinstance(nest, int) or nest < 0:
+        raise ValueError("formula_nesting: non-negative integer expected")
+    ann = (f'<annotation encoding="StarMath 5.0">{" ".join(toks)}</annotation>'
+           if c.opts.get("formula_annotation", True) else "")
+    content = (f'{_XML}<math xmlns="{NS_MATHML}" display="block"><semantics>{"<mrow>" * nest}<mrow>{mis}</mrow>{"</mrow>" * nest}'
+               f'{ann}</semantics></math>')
     return _package("odf", [("content.xml", content, "text/xml"),
                             ("meta.xml", _meta_xml(meta, c.opts), "text/xml")], c)
